@@ -14,13 +14,14 @@ Cases
 The image generator is tools/imgbuild.py (trait_space/trait_image: ground truth from the property text, not from the code).
 """
 import sys, os, io, random, struct, zlib, base64, subprocess, atexit, shutil, contextlib, logging
-import gen_insp, gen_C02_cli
+import gen_insp, gen_C02_cli, gen_C02_checks
 sys.path.insert(0, os.path.dirname(os.path.dirname(os.path.abspath(__file__))))
 import imgbuild as ib
 
 ID = 'C02'
-GEN = [('Gen/Insp_Consts.v', gen_insp.generate), ('Gen/Insp_Code.v', gen_insp.generate_code), ('Gen/C02_Cli.v', gen_C02_cli.generate)]
-EQUIV_FILES = []
+GEN = [('Gen/Insp_Consts.v', gen_insp.generate), ('Gen/Insp_Code.v', gen_insp.generate_code), ('Gen/C02_Cli.v', gen_C02_cli.generate),
+       ('Gen/C02_Checks.v', gen_C02_checks.generate_guarded)]
+EQUIV_FILES = ['Proofs/C02_Equiv.v']
 EXTRACT = 'Extract/C02_x.v'
 REPO = os.environ.get('VERIF_REPO', '/repo')
 STATIC = ('raw', 'qcow2', 'qed', 'vhd', 'vdi', 'iso', 'gpt', 'luks')
